@@ -472,8 +472,11 @@ impl FrameDecoder {
                         state.bytes_read_counter += 4;
                         let chksum = u32::from_le_bytes(chksum);
                         state.check_sum = Some(chksum);
+                        return Ok((4, 0));
                     }
-                    return Ok((4, 0));
+                    // Not enough bytes for the checksum yet: consume nothing and only
+                    // drain decoded bytes below.
+                    mt_source = &[];
                 }
 
                 loop {
